@@ -324,6 +324,9 @@ func (r *Rng) c10Command(nfile *int) c10Line {
 		if r.Chance(60) {
 			f = r.Pick([]string{"fA.out", "fB.out", "outA.txt"}) // names are REUSED across commands (and shared with output=)
 		}
+		if r.Chance(12) {
+			f = r.Pick(c10Undeliverable) // the report is generated but cannot be delivered
+		}
 		if r.Chance(40) {
 			toks = append(toks, ">", f)
 		} else {
@@ -409,7 +412,7 @@ func c10Toggles(types []string) []c10Toggle {
 		{"tagfocus", c10TagExprs, any, nil}, {"tagignore", c10TagExprs, any, nil},
 		{"tagshow", []string{"req", "tenant", "bytes", "latency"}, []string{"tags", "traces", "raw", "proto >p.out"}, nil},
 		{"taghide", []string{"req", "tenant", "bytes", "latency"}, []string{"tags", "traces", "raw", "proto >p.out"}, nil},
-		{"output", []string{"outA.txt", "outB.txt", ""}, any, nil},
+		{"output", []string{"outA.txt", "outB.txt", "", "no/such/dir/o.txt", "/dev/full"}, any, nil},
 		{"intel_syntax", []string{"true", "false"}, []string{"disasm .", "weblist . >w.out"}, nil},
 	}
 	if len(types) > 1 {
@@ -468,6 +471,44 @@ func c10ToggleScript(r *Rng, types []string) ([]c10Line, string) {
 		}
 	}
 	return ls, tg.opt
+}
+
+// output targets that cannot be written: missing directory, a device that is always full, a directory
+var c10Undeliverable = []string{"no/such/dir/out.txt", "/dev/full", "nodir/x.out", "../srcroot", "/proc/nonexistent/x"}
+
+// c10UndeliverableScript: report commands whose output cannot be delivered (bad `>file`, bad output=,
+// formats whose post-processor / visualizer is not installed), each followed by ordinary probed commands.
+func c10UndeliverableScript(r *Rng) []c10Line {
+	reports := []string{"top", "tree", "traces", "raw", "peek .", "tags", "text -cum", "dot", "list .", "callgrind", "proto", "topproto", "weblist ."}
+	failing := []string{"svg", "web", "gif", "png", "pdf", "ps", "eog", "evince", "gv", "kcachegrind"}
+	probes := []string{"top 3", "tree", "traces", "tags", "peek main", "comments", "text", "raw", "top >ok.out", "dot >ok.out", "proto >ok.pb"}
+	var ls []c10Line
+	asg := func(t string) { ls = append(ls, c10Line{Text: c10Pad(r, t), Intent: "assign"}) }
+	cmd := func(t string) { ls = append(ls, c10Line{Text: c10Pad(r, t), Intent: "command"}) }
+	for i, n := 0, 3+r.Intn(3); i < n; i++ {
+		switch r.Intn(4) {
+		case 0, 1:
+			cmd(r.Pick(reports) + " >" + r.Pick(c10Undeliverable))
+		case 2:
+			asg("output=" + r.Pick(c10Undeliverable))
+			cmd(r.Pick(reports))
+			if r.Bool() {
+				cmd(r.Pick(reports))
+			}
+			asg("output=")
+		case 3:
+			c := r.Pick(failing)
+			if r.Bool() {
+				c += " >" + r.Pick([]string{"img.out", "no/such/dir/img.out"})
+			}
+			cmd(c)
+		}
+		cmd(r.Pick(probes))
+		if r.Chance(40) {
+			cmd(r.Pick(probes))
+		}
+	}
+	return ls
 }
 
 // ---- file-reuse scripts: several reports written to the SAME file, long ones before short ones ----
